@@ -117,6 +117,8 @@ def harnesses(tier, seed):
     hs += step.step_harnesses(tier, seed, 'C01')
     hs += outer.outer_harnesses(tier, seed, 'C01')
     hs += runstart.start_harnesses(tier, seed, 'C01')
+    from .c03 import shared_c02_harnesses
+    hs += [h for h in shared_c02_harnesses(tier, ('evalobj',)) if 'scaling' in h.name]
     # with projections the box is one more projector: it must be the LAST one (then the returned point is its output: exact, C15)
     from . import c09
     for h in c09.harnesses(tier, seed):
